@@ -7,7 +7,9 @@ use super::mpc_common::*;
 use crate::ctx::Ctx;
 use crate::rng::{mix, Rng};
 use crate::val::*;
-use ciphercore_base::data_types::{array_type, named_tuple_type, tuple_type, ScalarType, Type, BIT};
+use ciphercore_base::data_types::{
+    array_type, named_tuple_type, tuple_type, ScalarType, Type, BIT, INT32, INT64, UINT16, UINT64, UINT8,
+};
 use ciphercore_base::data_values::Value;
 use ciphercore_base::graphs::{Context, JoinType};
 use ciphercore_base::type_inference::NULL_HEADER;
@@ -356,6 +358,119 @@ pub fn gen_join_case(rng: &mut Rng, max_rows: usize, jt: JoinType, masked: bool)
     JoinCase { a, b, pairs, jt, masked }
 }
 
+/// Large tables with one scalar key column: with at least 512 rows the protocol sizes its cuckoo
+/// table at 2-4 slots per row (instead of 128+ per row below 512), so a good share of the second
+/// table's rows end up in their second- or third-choice slot.
+pub fn gen_dense_case(rng: &mut Rng, n: usize, jt: JoinType, masked: bool) -> JoinCase {
+    let kst = *rng.pick(&[UINT16, INT32, UINT64, INT64]);
+    let rename = rng.bool();
+    let pairs = vec![("k0".to_string(), if rename { "q0".to_string() } else { "k0".to_string() })];
+    let nb = n + rng.usize(9);
+    let na = n / 2 + rng.usize(n / 2 + 1);
+    let mut seen = std::collections::HashSet::new();
+    let mut pool: Vec<u128> = vec![];
+    while pool.len() < na + nb {
+        let k = rand_int(rng, kst, Fill::Uniform);
+        if seen.insert(k) {
+            pool.push(k);
+        }
+    }
+    let overlap = na.min(nb) / 2 + rng.usize(na.min(nb) / 2 + 1);
+    let mut keys_a: Vec<u128> = pool[..na].to_vec();
+    let mut keys_b: Vec<u128> = pool[..overlap].to_vec();
+    keys_b.extend(pool[na..na + (nb - overlap)].iter().cloned());
+    rng.shuffle(&mut keys_a);
+    rng.shuffle(&mut keys_b);
+    let mut mk = |n: usize, key_name: &str, keys: &[u128], payload: &str| -> JTable {
+        let null: Vec<u8> = (0..n).map(|_| if rng.chance(1, 8) { 0 } else { 1 }).collect();
+        let pst = *rng.pick(&[INT32, UINT64, UINT8]);
+        let key_col = Col {
+            name: key_name.to_string(),
+            st: kst,
+            row_shape: vec![],
+            mask: (0..n).map(|_| if masked && rng.chance(1, 8) { 0 } else { 1 }).collect(),
+            data: keys.iter().map(|k| vec![*k]).collect(),
+        };
+        let pay_col = Col {
+            name: payload.to_string(),
+            st: pst,
+            row_shape: vec![],
+            mask: (0..n).map(|_| if masked && rng.chance(1, 8) { 0 } else { 1 }).collect(),
+            data: (0..n).map(|_| vec![rand_int(rng, pst, Fill::Uniform)]).collect(),
+        };
+        let cols = if rng.bool() { vec![key_col, pay_col] } else { vec![pay_col, key_col] };
+        JTable { n, null_pos: rng.usize(3), null, cols, masked }
+    };
+    let a = mk(na, &pairs[0].0, &keys_a, "pa0");
+    let b = mk(nb, &pairs[0].1, &keys_b, "pb0");
+    JoinCase { a, b, pairs, jt, masked }
+}
+
+/// where two tables of the same named-tuple type differ: per column, the number of differing rows
+/// and the first ones
+pub fn table_diff(want: &Value, got: &Value, t: &Type) -> serde_json::Value {
+    let mut out = vec![];
+    let cols = match t {
+        Type::NamedTuple(v) => v.clone(),
+        _ => return json!("result type is not a named tuple"),
+    };
+    let (w, g) = match (want.to_vector(), got.to_vector()) {
+        (Ok(w), Ok(g)) if w.len() == cols.len() && g.len() == cols.len() => (w, g),
+        _ => return json!("result is not a vector of columns"),
+    };
+    for (i, (name, ct)) in cols.iter().enumerate() {
+        let parts: Vec<(String, Type, Value, Value)> = match &**ct {
+            Type::Tuple(ts) if ts.len() == 2 => {
+                let (wv, gv) = match (w[i].to_vector(), g[i].to_vector()) {
+                    (Ok(a), Ok(b)) if a.len() == 2 && b.len() == 2 => (a, b),
+                    _ => continue,
+                };
+                vec![
+                    (format!("{}.mask", name), (*ts[0]).clone(), wv[0].clone(), gv[0].clone()),
+                    (format!("{}.data", name), (*ts[1]).clone(), wv[1].clone(), gv[1].clone()),
+                ]
+            }
+            _ => vec![(name.clone(), (**ct).clone(), w[i].clone(), g[i].clone())],
+        };
+        for (nm, ty, wv, gv) in parts {
+            if let (Some(a), Some(b)) = (ints_of_value(&wv, &ty), ints_of_value(&gv, &ty)) {
+                let rows = ty.get_shape()[0] as usize;
+                let per = a.len() / rows.max(1);
+                let bad: Vec<usize> = (0..rows).filter(|r| a[r * per..(r + 1) * per] != b[r * per..(r + 1) * per]).collect();
+                if !bad.is_empty() {
+                    let first: Vec<String> = bad.iter().take(4).map(|r| format!("row {}: want {:?} got {:?}", r, &a[r * per..(r + 1) * per], &b[r * per..(r + 1) * per])).collect();
+                    out.push(json!({"column": nm, "rows_differing": bad.len(), "first": first}));
+                }
+            }
+        }
+    }
+    json!(out)
+}
+
+/// the input rows behind the first differing result row (for reports)
+fn row_context(case: &JoinCase, want: &Value, got: &Value, t: &Type) -> serde_json::Value {
+    let diff = table_diff(want, got, t);
+    let first = diff.as_array().and_then(|a| a.first()).and_then(|c| c["first"][0].as_str().map(|s| s.to_string()));
+    let r: usize = match first.and_then(|s| s.split(|c| c == ' ' || c == ':').nth(1).and_then(|x| x.parse().ok())) {
+        Some(r) => r,
+        None => return json!(null),
+    };
+    let ka: Vec<String> = case.pairs.iter().map(|p| p.0.clone()).collect();
+    let kb: Vec<String> = case.pairs.iter().map(|p| p.1.clone()).collect();
+    let describe = |tb: &JTable, i: usize| -> serde_json::Value {
+        json!({"row": i, "null": tb.null[i],
+               "cols": tb.cols.iter().map(|c| json!({"name": c.name, "mask": c.mask[i], "data": format!("{:?}", c.data[i])})).collect::<Vec<_>>()})
+    };
+    let (tb, i, other, ko, kt) = if r < case.a.n { (&case.a, r, &case.b, &kb, &ka) } else { (&case.b, r - case.a.n, &case.a, &ka, &kb) };
+    if i >= tb.n {
+        return json!(null);
+    }
+    let key = tb.key(i, kt);
+    let partners: Vec<serde_json::Value> = (0..other.n).filter(|j| other.key(*j, ko) == key).map(|j| describe(other, j)).collect();
+    json!({"result_row": r, "from": if r < case.a.n { "first table" } else { "second table" }, "input_row": describe(tb, i),
+           "rows_of_other_table_with_same_key_data": partners})
+}
+
 pub fn join_context(case: &JoinCase) -> Result<Context, String> {
     let headers: HashMap<String, String> = case.pairs.iter().cloned().collect();
     let (jt, masked) = (case.jt, case.masked);
@@ -430,12 +545,19 @@ pub fn run(ctx: &mut Ctx) {
         }
     });
     // compiled joins (seconds each): single evaluator and three parties
-    let total = ctx.q(32, 1200);
-    ctx.cases("compiled", total, |ctx, idx| {
+    // "compiled_big" (thorough only, minutes per case): tables of up to 16 rows, other cuckoo table sizes
+    // "compiled_dense": at least 512 rows in the second table (the other cuckoo sizing regime)
+    let phases = [
+        ("compiled", ctx.q(48u64, 2400), ctx.q(4usize, 8)),
+        ("compiled_big", ctx.q(0, 48), 16),
+        ("compiled_dense", ctx.q(32, 192), 512),
+    ];
+    for (phase, total, mr) in phases {
+    ctx.cases(phase, total, |ctx, idx| {
         let jt = JTS[(idx % 4) as usize];
         let masked = (idx / 4) % 3 == 2;
-        let mr = ctx.q(4, 6);
-        let case = gen_join_case(&mut ctx.rng, mr, jt, masked);
+        let dense = phase == "compiled_dense";
+        let case = if dense { gen_dense_case(&mut ctx.rng, mr, jt, masked) } else { gen_join_case(&mut ctx.rng, mr, jt, masked) };
         let c = match join_context(&case) {
             Ok(c) => c,
             Err(_) => return,
@@ -444,8 +566,17 @@ pub fn run(ctx: &mut Ctx) {
         let inputs = vec![case.a.value(), case.b.value()];
         let mut cfg = rand_config(&mut ctx.rng, 2);
         // owner classes of interest: both private (any parties / shared), one public table
-        match (idx / 12) % 4 {
-            0 => {}
+        match if dense { 0 } else { (idx / 12) % 4 } {
+            0 => {
+                if dense {
+                    // both tables private
+                    for o in cfg.owners.iter_mut() {
+                        if *o == Owner::Public {
+                            *o = Owner::Shared;
+                        }
+                    }
+                }
+            }
             1 => cfg.owners[1] = Owner::Public,
             2 => cfg.owners[0] = Owner::Public,
             _ => {
@@ -477,23 +608,29 @@ pub fn run(ctx: &mut Ctx) {
             }
         };
         ctx.count("compiled", 1);
-        ctx.count(&format!("compiled.{}.{}", jt_name(jt), class), 1);
+        ctx.count(&format!("{}.{}.{}", phase, jt_name(jt), class), 1);
+        ctx.count("compiled_rows", (case.a.n + case.b.n) as u64);
         ctx.count("compiled_nodes", compiled.get_main_graph().map(|g| g.get_num_nodes()).unwrap_or(0));
         let detail = |what: String| {
             json!({"what": what, "join": jt_name(jt), "masked": masked, "owners": class, "config": cfg.describe(),
                    "type_a": format!("{}", case.a.ty()), "type_b": format!("{}", case.b.ty()), "keys": case.pairs,
                    "a": value_json(&case.a.value()), "b": value_json(&case.b.value())})
         };
-        for _ in 0..2 {
+        // every execution draws fresh PRF keys, hence a fresh cuckoo placement of the second table
+        for _ in 0..(if dense { 2 } else { 4 }) {
             let ins = inputs_single(&mut ctx.rng, &cfg, &types, &inputs);
             match eval_single(&compiled, ins, ctx.rng.seed16()) {
                 Ok(v) => {
                     ctx.count("compiled_executions", 1);
-                    if reveal_single(&cfg, &v, &out_type).ok().as_ref() != Some(&expected) {
-                        ctx.violation(
-                            &format!("C19|compiled_join_differs|{}|{}", jt_name(jt), class),
-                            detail("compiled secure join returns a different table than plaintext evaluation".into()),
-                        );
+                    let got = reveal_single(&cfg, &v, &out_type).ok();
+                    if got.as_ref() != Some(&expected) {
+                        let mut d = detail("compiled secure join returns a different table than plaintext evaluation".into());
+                        if let Some(g) = got.as_ref() {
+                            d["diff"] = table_diff(&expected, g, &out_type);
+                            d["rows"] = json!([case.a.n, case.b.n]);
+                            d["row_context"] = row_context(&case, &expected, g, &out_type);
+                        }
+                        ctx.violation(&format!("C19|compiled_join_differs|{}|{}", jt_name(jt), class), d);
                     }
                 }
                 Err(e) => {
@@ -506,6 +643,9 @@ pub fn run(ctx: &mut Ctx) {
             }
         }
         for junk in [Fill::Zeros, Fill::Uniform] {
+            if dense && junk == Fill::Zeros {
+                continue;
+            }
             let ins = inputs_party(&mut ctx.rng, &cfg, &types, &inputs, junk);
             let seeds = seeds3(&mut ctx.rng);
             let js = ctx.rng.next_u64();
@@ -524,8 +664,9 @@ pub fn run(ctx: &mut Ctx) {
         }
         ctx.case_done(mix(&[idx, 77, crate::rng::fnv(cfg.describe().as_bytes())]), class != "public-public");
         if idx < 8 {
-            ctx.sample(json!({"phase": "compiled", "join": jt_name(jt), "masked": masked, "config": cfg.describe(),
+            ctx.sample(json!({"phase": phase, "join": jt_name(jt), "masked": masked, "config": cfg.describe(),
                               "type_a": format!("{}", case.a.ty()), "type_b": format!("{}", case.b.ty())}));
         }
     });
+    }
 }
